@@ -91,9 +91,14 @@ void harness(void)
 	uint8_t out[MAXQ + 2];
 	int ret;
 
+#ifdef MAXC
+	/* driver-side case split over the ring state (bytes stay symbolic) */
+	max = MAXC; off = OFFC; len = LENC;
+#else
 	max = V_IN_RANGE("max", 1, MAXQ);
 	off = V_IN_RANGE("off", 0, MAXQ);
 	len = V_IN_RANGE("len", 0, MAXQ);
+#endif
 	V_ASSUME(off <= max && len <= max);
 #ifdef OFF_LT_MAX
 	V_ASSUME(off < max);
@@ -309,7 +314,11 @@ void harness(void)
 	{
 	/* heap-backed store: grow / shrink / release; on shrinking the oldest bytes are dropped */
 	uint8_t *heap = malloc(max);
+	#ifdef NSZC
+	size_t nsz = NSZC, keep, drop;
+#else
 	size_t nsz = V_IN_RANGE("newsize", 0, MAXQ + 2), keep, drop;
+#endif
 	void *r;
 	V_ASSUME(heap != 0);
 	for (i = 0; i < MAXQ; i++) if (i < max) heap[i] = store[i];
